@@ -2,7 +2,7 @@
 From Coq Require Import List NArith Bool.
 From Frugal Require Import Bytes Wire Skip Values Desc Spec Encode Decode Checks Tags State Bitset Alloc DescMap Conc LegacyDefs.
 From Frugal.gen Require Import Params.
-From Frugal.proofs Require Import GenOk BytesWire EncodeSpec SizeExact SkipPut DecodeSafe DecodeRefines RoundTrip Corollaries StateProofs BitsetProofs AllocProofs DescMapProofs ConcProofs BufferContract.
+From Frugal.proofs Require Import GenParams DecodeSafe.
 From Frugal.proofs Require Import DecodeSound.
 From Frugal.props Require Import Examples.
 Import ListNotations.
@@ -47,3 +47,8 @@ Proof. exact params_ok_holds. Qed.
 Example C05_instance : decode_object env_ex [] 0 [8; 0; 1; 0; 0] (fresh env_ex 0) = DErr EShort
   /\ decode_object env_ex [] 0 [15; 0; 3; 12; 127; 255; 255; 255] (fresh env_ex 0) = DErr ESizeExceeds.
 Proof. split; vm_compute; reflexivity. Qed.
+
+(* the side conditions on the generated constants and tables that the theorems above assume hold
+   for what the translator read from the sources of this run *)
+Theorem C05_side_conditions : params_ok = true.
+Proof. exact params_ok_holds. Qed.
